@@ -284,6 +284,13 @@ def run(prog, rep, tier):
             # leaving through the error of end_file (`?`) is not "going on": only the way back to the loop head counts
             r_ = reachable_vs(body, e2_.idx, removed_blocks=pushes) if False else body.reachable(e2_.term.target, removed_blocks=pushes)
             okn = heads[0].idx not in r_
+        # ... and nothing takes names out of that list again (a cap on the report hides files that were closed incomplete)
+        shrink = [b.idx for b in body.calls() if b.term.cmethod in ('truncate', 'pop', 'clear', 'remove', 'swap_remove', 'drain', 'retain', 'retain_mut', 'dedup', 'dedup_by', 'dedup_by_key',
+                                                                    'split_off', 'resize', 'resize_with', 'take', 'replace', 'set_len')
+                  and b.term.args and b.term.args[0].place is not None and origins(body, [b.term.args[0].place[0]], through_calls=False).locals & vlocals]
+        rep.ob('R02.4', not shrink, 'R02.4|%s|unfinished-list-never-shortened' % body.nkey, 'no name is removed from the list UnfinishedFiles carries' if not shrink else
+               'names are removed from the list of unfinished files before it is reported (%s): a file closed incomplete is presented as recovered in full'
+               % ', '.join(body.loc(x) for x in shrink), body.loc(shrink[0]) if shrink else body.loc())
         rep.ob('R02.4', okn, 'R02.4|%s|every-closed-file-is-named' % body.nkey, 'every file ended by the clean-up is pushed onto the list UnfinishedFiles carries' if okn else
                'the clean-up can end a file that was not completed without naming it in UnfinishedFiles: a file missing its end is then presented as recovered in full', body.loc(e2_.idx))
 
